@@ -1,6 +1,6 @@
 """Single source of truth for MANIFEST.json (bin/mkmanifest.py renders it)."""
 GUARD = "CPPCMS_VERIF"
-HOOK_COMMITS = ["f8a197b"]
+HOOK_COMMITS = ["f8a197b", "0d36e35"]
 
 CHECKS = {
  "C07": dict(
@@ -19,6 +19,17 @@ CHECKS["C09"] = dict(
    text="TLC explores every interleaving of 2x2 / 3x1 / 2x3 cache operations at lock-step granularity (Conc.tla): reader/writer exclusion, LRU-list exclusion, linearization point inside the call, returned value = value at the linearization point, no torn value, termination under weak fairness. Real 2..8-thread runs are recorded through hooks inside the critical sections and accepted only if lock events respect the exclusion rules and the Lin events, in sequence order, form a behaviour of the sequential cache spec with every return value equal to its own Lin result - i.e. each observed history is linearizable with real-time-consistent linearization points.",
    note="Hook placement is trusted (events emitted while the lock is held); unhooked accesses are only covered through their effects and the optional TSan run (thorough tier, aid only). Clock constant during concurrent rounds.",
    ref="3/C09")
+
+CHECKS["C17"] = dict(
+   technique="TLA+ mechanism model of the event loop (one action per critical section, poll-reason snapshot) checked by TLC for safety + liveness incl. seeded design bugs; trace validation of multi-threaded runs against a property-layer spec using in-mutex hook events",
+   text="TLC explores LoopImpl.tla (producers posting, arming/cancelling timers and I/O waits against the drain/poll cycle) for AtMostOnce, TimerNotEarly, CodeRule and, under weak fairness, EventuallyRuns - a lost wake-up or a cancel overtaken by a queued set is a liveness counter-example (TLC reproduces the pre-fix race ad910ae and two more seeded bugs); Pool.tla likewise for the worker pool. Real runs with 1..8 producer threads per reactor back-end (select, poll, epoll) and 1..8 posters on the pool are recorded through hooks under data_mutex_/the pool mutex and accepted only if every handler goes reg -> [armed] -> queued(code matching its cause) -> dequeued and run exactly once on the loop thread, timers never early, and at Quiesce nothing is pending.",
+   note="Hook placement trusted; kernel readiness is an environment input; handler identity = callable address kept alive per round; schedules explored in Leg B are whatever the OS scheduler produces plus targeted race modes (pingpong, cancelrace, stop).",
+   ref="3/C17")
+CHECKS["C16"] = dict(
+   technique="TLA+ models of digest/HMAC/CBC object mechanisms over an uninterpreted H (TLC) + trace validation of recorded API calls with HMAC re-derived in TLA+ per RFC 2104 and references libcrypto/libgcrypt + known-answer vectors",
+   text="TLC explores the digest-object mechanism (block- and byte-wise buffering, padding, re-initialisation) for all chunkings and object reuse over a free compression function, the two-digest HMAC mechanism against HMAC as defined in TLA+ from RFC 2104 over a free H for all key-length classes, and the CBC algebra and object chains for every 2-bit block permutation. It then validates ~1.9e5 (quick) / 1.3e6 (thorough) recorded API calls of the real message_digest/hmac/cbc/key objects: every digest read out must equal the value for the bytes TLC itself concatenated from that object's appends, where the table is single-valued across cppcms (chunked and fresh), libcrypto and libgcrypt and agrees with the embedded RFC/FIPS vectors; every HMAC must equal the RFC 2104 expression re-derived by TLC from logged H values of byte-bound inner and outer messages; CBC data must satisfy the CBC relation, round trips must be the identity and cipher text must equal libcrypto's; hexadecimal keys parse exactly or are refused.",
+   note="H and AES are uninterpreted: conformance to the standards is decided as agreement with OpenSSL EVP and libgcrypt on every driven input plus the known-answer vectors. Messages above 520 bytes and long HMAC texts are compared by descriptor (agreement with the references only). The harness is trusted to log the buffers it passes. Lengths between 4 MiB and 2^29 bytes and IV distinctness are not exercised.",
+   ref="3/C16")
 
 NOT_APPLICABLE = {
 }
